@@ -11,8 +11,9 @@
    ij(k) = (k / cols, k mod cols).  A dense matrix is its row-major value list.
    The matrix joint iterators compare (i, j) lexicographically; for matrices of
    equal shape that is the order of k = i*cols + j, which is what the model
-   compares.  Their Ok() is VALUE based (some delivered value is non-zero) — as
-   in Go at HEAD, unlike the vector joint iterators.  The dense matrix iterator
+   compares.  Their Ok() is the explicit flag of HEAD (after e83c5e9): some
+   underlying iterator delivered an element, like the vector joint iterators (it
+   was value based before: an element of value 0 ended the walk).  The dense matrix iterator
    skips zero elements.  JOINT_ITERATOR is modelled as JOINT3_ITERATOR with an
    empty third operand (Props.joint_is_joint3 proves this for the vector twins).
 
@@ -123,10 +124,15 @@ Definition mj3_next (w : world) (t : nat) (j : mj3) : option (world * mj3) :=
           end
       end
   end.
-(* Ok(): some current value is non-zero *)
+(* Ok() (HEAD, after e83c5e9): the flag recorded by Next() BEFORE it advances the
+   underlying iterators: obj.ok = obj.s1.ptr != nil || obj.s2 != nil || obj.s3 != nil
+   — some iterator delivered an element; the VALUES are not looked at (an element
+   with value 0 does not end the walk).  [ms1]/[ms2]/[ms3] are exactly what Next()
+   selected (the later replacement of a nil s2/s3 by the constant 0 is [jval]). *)
 Definition mj3_ok (w : world) (j : mj3) : bool :=
-  (match ms1 j with Some l => negb (hget (hp w) l =? 0) | None => false end) ||
-  negb (jval (ms2 j) =? 0) || negb (jval (ms3 j) =? 0).
+  (match ms1 j with Some _ => true | None => false end) ||
+  (match ms2 j with Some _ => true | None => false end) ||
+  (match ms3 j with Some _ => true | None => false end).
 Definition mj3_begin (w : world) (t : nat) (o2 o3 : operand) : option (world * mj3) :=
   match it_begin (hp w) (getv w t) with
   | None => None
@@ -179,6 +185,71 @@ Fixpoint meq_loop (e2 : Z) (fuel : nat) (w : world) (t : nat) (j : mj3) : option
         else Some (w, false)
     end
   else Some (w, true).
+
+(* ---------------------------------------------------- MATRIX_JOINT_ITERATOR *)
+(* The TWO-way iterator (JOINT_ITERATOR / the public JointIterator), written out
+   as in Go at HEAD:
+     ok1 := it1.Ok(); ok2 := it2.Ok(); s1 = nil; s2 = nil
+     if ok1 { i, j = it1.Index(); s1 = it1.GET() }
+     if ok2 { i', j' := it2.Index()
+       switch { case obj.i > i' || (obj.i == i' && obj.j > j') || !ok1: take it2 only
+                case obj.i == i' && obj.j == j':                       take both } }
+     obj.ok = s1 != nil || s2 != nil; advance the iterators that delivered
+   (lexicographic order of (i, j) = order of the linear index for equal shapes).
+   MmulS / MdivS / Equals above run it as the three-way iterator with an empty
+   third operand; ProofsMJ2.mj2_next_emb proves that this is the same machine. *)
+Record mj2 := { n1 : option Z; n2 : miter; nidx : Z; ns1 : option loc; ns2 : option Z }.
+Definition mj2_next (w : world) (t : nat) (j : mj2) : option (world * mj2) :=
+  let ok1 := match n1 j with Some _ => true | None => false end in
+  let ok2 := mi_ok (n2 j) in
+  let '(i0, s1) := match n1 j with
+                   | Some k => (k, lookup k (vals (getv w t)))
+                   | None => (nidx j, None) end in
+  let '(i1, s1a, s2a) :=
+    if ok2 then
+      let i := mi_index (n2 j) in
+      if (i <? i0) || negb ok1 then (i, None, mi_get w (n2 j))
+      else if i0 =? i then (i0, s1, mi_get w (n2 j))
+      else (i0, s1, None)
+    else (i0, s1, None) in
+  match (match s1a with
+         | Some _ => match it_next (hp w) (getv w t) (n1 j) with
+                     | Some (v', c') => Some (setv w t v', c')
+                     | None => None end
+         | None => Some (w, n1 j) end) with
+  | None => None
+  | Some (w1, c1) =>
+      match (match s2a with Some _ => mi_next w1 (n2 j) | None => Some (w1, n2 j) end) with
+      | None => None
+      | Some (w2, c2) => Some (w2, {| n1 := c1; n2 := c2; nidx := i1; ns1 := s1a; ns2 := s2a |})
+      end
+  end.
+Definition mj2_ok (j : mj2) : bool :=
+  (match ns1 j with Some _ => true | None => false end) || (match ns2 j with Some _ => true | None => false end).
+Definition mj2_begin (w : world) (t : nat) (o2 : operand) : option (world * mj2) :=
+  match it_begin (hp w) (getv w t) with
+  | None => None
+  | Some (v', c1) =>
+      match mi_begin (setv w t v') o2 with
+      | None => None
+      | Some (w1, c2) => mj2_next w1 t {| n1 := c1; n2 := c2; nidx := -1; ns1 := None; ns2 := None |}
+      end
+  end.
+(* for it := a.JointIterator(b); it.Ok(); it.Next() { i, j := it.Index(); s1, s2 := it.GetConst(); ... }:
+   per visit the linear index, whether s1 is non-nil, its value, the value of s2 (never nil: 0 when absent) *)
+Fixpoint mj2_visits (fuel : nat) (w : world) (t : nat) (j : mj2) (acc : list Z) : option (world * list Z) :=
+  if mj2_ok j then
+    match fuel with
+    | O => None
+    | S fu =>
+        let r := [nidx j; match ns1 j with Some _ => 1 | None => 0 end;
+                  match ns1 j with Some l => hget (hp w) l | None => 0 end; jval (ns2 j)] in
+        match mj2_next w t j with
+        | None => None
+        | Some (w', j') => mj2_visits fu w' t j' (acc ++ r)
+        end
+    end
+  else Some (w, acc).
 
 (* ------------------------------------- loops over the receiver's own entries *)
 (* for it := m.Iterator(); it.Ok(); it.Next() { it.Get().<set>(g k) } *)
@@ -319,7 +390,8 @@ Inductive mop4 :=
   | MdotM (r a b : mref)
   | MOuter (r : mref) (a b : vref)
   | MdotV (r : vref) (a : mref) (b : vref)
-  | VdotM (r : vref) (a : vref) (b : mref).
+  | VdotM (r : vref) (a : vref) (b : mref)
+  | MJoint (k : nat) (b : mref).                 (* walk sparse matrix k's public JointIterator(b): payload = visit sequence *)
 
 Definition liftm (w : w4) (r : option (world * bool)) : w4 * (Z * list Z) :=
   match r with
@@ -627,6 +699,18 @@ Definition step4 (y : ty) (w : w4) (o : mop4) : w4 * (Z * list Z) :=
                  fold_left (fun acc j => acc + vrd w a j * mrd w b (j * m + i)) (zseq 0 (Z.to_nat n)) 0)
                  (zseq 0 (Z.to_nat m)))))
       end
+  | MJoint k b =>
+      let '(t, r, c) := getsm w k in
+      if dims_eqb (mdims w b) (r, c) then
+        match mj2_begin s t (mop w b) with
+        | None => (w, (K_FUEL, []))
+        | Some (s1, j) =>
+            match mj2_visits (lfuel s t) s1 t j [] with
+            | None => (w, (K_FUEL, []))
+            | Some (s2, l) => (setsw w s2, (K_OK, l))
+            end
+        end
+      else panic w
   end.
 
 Definition run4 (y : ty) (w : w4) (ops : list mop4) : w4 := fold_left (fun w o => fst (step4 y w o)) ops w.
